@@ -142,7 +142,7 @@ def _cli_child(job):
     return r
 
 
-def run_command(root, argv, cwd="", clock=None, crash_at=None, count=False, env=None, timeout=120):
+def run_command(root, argv, cwd="", clock=None, crash_at=None, count=False, env=None, timeout=400):
     env = dict(env or {})
     env["CV_CTL"] = os.path.join(root, ".ctl")
     res = C.fork_map(_cli_child, [(root, argv, cwd, clock, crash_at, count, env)], nproc=1, timeout=timeout)[0]
